@@ -43,6 +43,12 @@ func vfH_C08_Pair() {
 	c, mon := vfNewCache(vfCfg{MaxCost: 2, SetBuf: vfParam("setbuf", 2), BufferItems: int64(vfParam("bufitems", 1)),
 		IgnoreInternalCost: true, Metrics: vfParam("metrics", 1) == 1, NoCallbacks: vfParam("callbacks", 1) == 0})
 	mon.vfKeys(2, true)
+	switch vfParam("hashes", 0) {
+	case 1: // concrete hashes, both keys in one shard (no data forks: wide pair coverage in the quick tier)
+		mon.hash[0], mon.hash[1], mon.conf[0], mon.conf[1] = 6400, 6400+256*3, 1, 2
+	case 2: // concrete hashes, different shards
+		mon.hash[0], mon.hash[1], mon.conf[0], mon.conf[1] = 6400, 6401, 1, 2
+	}
 	vfSet("preempt", 0)
 	vfSet("dpor", 0)
 	mon.set(c, 0, 1, 0)
@@ -57,6 +63,23 @@ func vfH_C08_Pair() {
 	vfSet("loop", 300)
 	samekey := vfParam("samekey", 1) == 1
 	vfBegin()
+	// a / b / samekey = -1: every call (and both key relations) as a choice after the snapshot, so that
+	// one run covers all pairs from the same pre-state
+	if a < 0 {
+		a = vfChoice(11)
+	}
+	if b < 0 {
+		b = vfChoice(11)
+	}
+	if vfParam("samekey", 1) < 0 {
+		samekey = vfChoice(2) == 1
+	}
+	if vfParam("skipheavy", 0) == 1 {
+		// IterValues / Clear take all 256 shard locks: their pairs with each other are left to the runs
+		// with a smaller pre-emption bound
+		heavy := func(op int) bool { return op == 5 || op == 7 }
+		vfAssume(!(heavy(a) && heavy(b)))
+	}
 	done := make(chan struct{}, 1)
 	go func() {
 		vfC08Op(c, mon, a, 0)
